@@ -1,4 +1,5 @@
-(* Proofs/C19W5.v — wave 5: sptensor.scale with a numpy vector as factor (C19-N27, open). *)
+(* Proofs/C19W5.v — wave 5 / 6: sptensor.scale with a numpy vector as factor (C19-N27, repaired 98f7017), tensor.ttsv (C19-N28,
+   repaired 0478ea5), ttensor.reconstruct (C19-N29: as in /repo HEAD and with the pending repair 9d2314a). *)
 From Coq Require Import List ZArith Bool Lia Permutation.
 From PV Require Import Np.NpZ Np.NpZ2 Gen.GenUtils Proofs.NpZProofs Proofs.UtilsProofs
   Model.C19Guards Proofs.C19Proofs Proofs.C19Ttv Proofs.C19More Proofs.C19W3 Proofs.C19W4.
@@ -13,41 +14,25 @@ Proof.
   pose proof (np_sort_perm [m]) as P. apply Permutation_sym, Permutation_length_1_inv in P. exact P.
 Qed.
 
-Definition one_mode_ok (s : vec) (flen : Z) (d : vec) : bool := match d with [m] => flen =? sz s m | _ => false end.
-
-(* the answered set, exactly: well-formed mode list and (no entry stored, or one mode whose length the vector has) *)
-Theorem sptensor_scale_arr_exact s e flen d :
-  guard_sptensor_scale_arr s e flen d = decide (modes_ok (ndim s) d && (e || one_mode_ok s flen d)).
+(* C19-N27 repaired (98f7017): the receiver without entries compares the vector's shape too — the guard rejects exactly when the
+   precondition fails, whether the receiver stores an entry or not *)
+Theorem sptensor_scale_arr_decides s e flen d :
+  guard_sptensor_scale_arr s e flen d = decide (pre_sptensor_scale_arr s e flen d).
 Proof.
-  unfold guard_sptensor_scale_arr. destruct (modes_ok (ndim s) d) eqn:Hm.
+  unfold guard_sptensor_scale_arr, pre_sptensor_scale_arr. destruct (modes_ok (ndim s) d) eqn:Hm.
   - apply modes_ok_spec in Hm as [Hr Hn]. rewrite (dimscheck_dims (ndim s) None d).
-    + cbn [andb]. destruct e; [reflexivity|]. cbn [orb]. unfold one_mode_ok.
-      destruct d as [|m [|m' r]].
-      * reflexivity.
-      * rewrite np_sort_single. destruct (flen =? sz s m); reflexivity.
-      * pose proof (np_sort_length (m :: m' :: r)) as L. destruct (np_sort (m :: m' :: r)) as [|a [|b t]]; cbn in L; try discriminate. reflexivity.
+    + cbn [andb]. assert (E : match np_sort d with [m] => chk (flen =? sz s m) | _ => Err end
+                              = decide match d with [m] => flen =? sz s m | _ => false end).
+      { destruct d as [|m [|m' r]].
+        * reflexivity.
+        * rewrite np_sort_single. destruct (flen =? sz s m); reflexivity.
+        * pose proof (np_sort_length (m :: m' :: r)) as L. destruct (np_sort (m :: m' :: r)) as [|a [|b t]]; cbn in L; try discriminate. reflexivity. }
+      destruct e; exact E.
     + repeat split; auto; apply Hr; auto.
   - now rewrite dimscheck_rejects_bad_modes.
 Qed.
 
-Definition sptensor_scale_arr_stmt : Prop :=
-  forall s e flen d, guard_sptensor_scale_arr s e flen d = decide (pre_sptensor_scale_arr s e flen d).
-Theorem sptensor_scale_arr_refuted : ~ sptensor_scale_arr_stmt.
-Proof. intros H. specialize (H [2; 3; 2] true 5 [1]). vm_compute in H. discriminate. Qed.
-Theorem sptensor_scale_arr_partial s flen d :
-  guard_sptensor_scale_arr s false flen d = decide (pre_sptensor_scale_arr s false flen d).
-Proof. rewrite sptensor_scale_arr_exact. reflexivity. Qed.
-(* "answered although ill-formed" = the trigger region of C19-N27 *)
-Theorem sptensor_scale_arr_gap s e flen d :
-  guard_sptensor_scale_arr s e flen d = Ok tt /\ pre_sptensor_scale_arr s e flen d = false <->
-  e = true /\ modes_ok (ndim s) d = true /\ one_mode_ok s flen d = false.
-Proof.
-  rewrite sptensor_scale_arr_exact. unfold pre_sptensor_scale_arr. fold (one_mode_ok s flen d). unfold decide.
-  destruct (modes_ok (ndim s) d), e, (one_mode_ok s flen d); cbn; split; intros H; try (destruct H as [A B]); try discriminate;
-    try (destruct B; discriminate); repeat split; auto.
-Qed.
-
-(* ---- tensor.ttsv, default algorithm (C19-N28, open) ---- *)
+(* ---- tensor.ttsv, default algorithm (C19-N28 repaired, 0478ea5) ---- *)
 Lemma zprod_const c (l : vec) : forallb (fun x => x =? c) l = true -> zprod l = c ^ zlen l.
 Proof.
   induction l as [|x l IH]; intros H; [reflexivity|]. cbn [forallb] in H. apply andb_true_iff in H as [Hx Hl].
@@ -59,59 +44,34 @@ Qed.
 Lemma cubical_count s : cubical s = true -> zprod s = sz s 0 ^ ndim s.
 Proof. intros H. apply zprod_const. exact H. Qed.
 
-Lemma cubical_small s : zlen s <= 1 -> cubical s = true.
+(* the cubical test and "skip_dim >= ndims" in front of the reshapes: the guard rejects exactly when the precondition fails, for
+   every shape, vector length and skip_dim (numpy's element-count tests behind them can no longer fail) *)
+Theorem ttsv_decides s vlen skip : guard_ttsv s vlen skip = decide (pre_ttsv s vlen skip).
 Proof.
-  destruct s as [|x [|y r]]; intros H; [reflexivity| |unfold zlen in H; cbn [length] in H; lia].
-  unfold cubical, sz. cbn. now rewrite Z.eqb_refl.
-Qed.
-
-Definition ttsv_stmt : Prop := forall s vlen skip, guard_ttsv s vlen skip = decide (pre_ttsv s vlen skip).
-Theorem ttsv_refuted : ~ ttsv_stmt.
-Proof. intros H. specialize (H [2; 4; 1] 2 None). vm_compute in H. discriminate. Qed.
-
-(* exact on every tensor that is cubical or does not have the element count of a cubical tensor, for skip_dim below ndims *)
-Theorem ttsv_partial s vlen skip :
-  cubical s = true \/ zprod s <> sz s 0 ^ ndim s ->
-  match skip with Some k => k < ndim s | None => True end ->
-  guard_ttsv s vlen skip = decide (pre_ttsv s vlen skip).
-Proof.
-  intros H Hk.
-  assert (HC : (cubical s = true /\ (zprod s =? sz s 0 ^ ndim s) = true) \/ (cubical s = false /\ (zprod s =? sz s 0 ^ ndim s) = false)).
-  { destruct H as [H|H].
-    - left. split; [exact H|]. apply Z.eqb_eq. now apply cubical_count.
-    - right. split; [|now apply Z.eqb_neq]. destruct (cubical s) eqn:E; [|reflexivity]. exfalso. apply H. now apply cubical_count. }
-  clear H. unfold guard_ttsv, pre_ttsv. cbv zeta.
+  unfold guard_ttsv, pre_ttsv. cbv zeta.
   assert (Hd : 0 <= ndim s) by (unfold ndim, zlen; lia).
-  destruct skip as [k|]; unfold ttsv_dnew.
-  - unfold in_range. destruct (Z.leb_spec 0 k) as [H0|H0]; cbn [andb chk andthen decide]; [|reflexivity].
-    replace (k <? ndim s) with true by (symmetry; apply Z.ltb_lt; exact Hk). cbn [andb].
-    destruct (Z.ltb_spec 0 (ndim s - (k + 1))) as [Hr|Hr].
-    + replace (ndim s - (k + 1) =? 0) with false by (symmetry; apply Z.eqb_neq; lia). cbn [orb].
-      rewrite (Z.eqb_sym vlen). destruct HC as [[-> ->]|[-> ->]]; cbn [chk andthen andb decide]; [|reflexivity].
-      destruct (sz s 0 =? vlen); reflexivity.
-    + assert (Ed : ndim s = k + 1) by lia. replace (ndim s - (k + 1) =? 0) with true by (symmetry; apply Z.eqb_eq; lia).
-      cbn [orb]. rewrite andb_true_r. rewrite <- Ed.
-      destruct (Z.leb_spec 2 (ndim s)) as [H2|H2].
-      * destruct HC as [[-> ->]|[-> ->]]; reflexivity.
-      * rewrite cubical_small by (unfold ndim in H2; lia). reflexivity.
-  - cbn [chk andthen andb]. rewrite Z.sub_0_r.
-    destruct (Z.ltb_spec 0 (ndim s)) as [Hr|Hr].
-    + replace (ndim s =? 0) with false by (symmetry; apply Z.eqb_neq; lia). cbn [orb].
-      rewrite (Z.eqb_sym vlen). destruct HC as [[-> ->]|[-> ->]]; cbn [chk andthen andb decide]; [|reflexivity].
-      destruct (sz s 0 =? vlen); reflexivity.
-    + replace (ndim s =? 0) with true by (symmetry; apply Z.eqb_eq; lia). cbn [orb Z.leb]. rewrite andb_true_r.
-      rewrite cubical_small by (unfold ndim in Hr; lia). reflexivity.
+  destruct (cubical s) eqn:C.
+  2:{ destruct skip as [k|]; unfold ttsv_dnew, in_range; [destruct (0 <=? k)|]; cbn [chk andthen andb negb orb decide]; rewrite ?andb_false_r; reflexivity. }
+  pose proof (cubical_count s C) as P. apply Z.eqb_eq in P.
+  destruct skip as [k|]; unfold ttsv_dnew, in_range.
+  - destruct (Z.leb_spec 0 k) as [H0|H0]; cbn [andb chk andthen decide negb orb]; [|reflexivity].
+    replace (k + 1 - 1) with k by lia.
+    destruct (Z.ltb_spec k (ndim s)) as [Hk|Hk].
+    + replace (ndim s <=? k) with false by (symmetry; apply Z.leb_gt; lia). cbn [andb andthen].
+      destruct (Z.ltb_spec 0 (ndim s - (k + 1))) as [Hr|Hr].
+      * replace (ndim s - (k + 1) =? 0) with false by (symmetry; apply Z.eqb_neq; lia). rewrite P. cbn [chk andthen orb].
+        rewrite (Z.eqb_sym vlen). destruct (sz s 0 =? vlen); reflexivity.
+      * replace (ndim s - (k + 1) =? 0) with true by (symmetry; apply Z.eqb_eq; lia). cbn [orb].
+        replace (k + 1) with (ndim s) by lia. rewrite P. destruct (2 <=? ndim s); reflexivity.
+    + replace (ndim s <=? k) with true by (symmetry; apply Z.leb_le; lia). reflexivity.
+  - cbn [chk andthen andb negb orb]. replace (ndim s <=? 0 - 1) with false by (symmetry; apply Z.leb_gt; lia). cbn [andthen].
+    rewrite Z.sub_0_r. destruct (Z.ltb_spec 0 (ndim s)) as [Hr|Hr].
+    + replace (ndim s =? 0) with false by (symmetry; apply Z.eqb_neq; lia). rewrite P. cbn [chk andthen orb].
+      rewrite (Z.eqb_sym vlen). destruct (sz s 0 =? vlen); reflexivity.
+    + replace (ndim s =? 0) with true by (symmetry; apply Z.eqb_eq; lia). reflexivity.
 Qed.
 
-(* every well-formed request is answered *)
-Theorem ttsv_answers_wf s vlen skip : pre_ttsv s vlen skip = true -> guard_ttsv s vlen skip = Ok tt.
-Proof.
-  intros H. pose proof H as H'. unfold pre_ttsv in H'. apply andb_true_iff in H' as [H' _]. apply andb_true_iff in H' as [Hs Hc].
-  rewrite ttsv_partial; [now rewrite H|now left|].
-  destruct skip as [k|]; [|exact I]. unfold in_range in Hs. apply andb_true_iff in Hs as [_ Hs]. now apply Z.ltb_lt in Hs.
-Qed.
-
-(* ---- ttensor.reconstruct(samples, modes) (C19-N29, open) ---- *)
+(* ---- ttensor.reconstruct(samples, modes): the method of /repo HEAD (C19-N29, open) ---- *)
 Definition wrap_range (N m : Z) : bool := (- N <=? m) && (m <? N).
 Theorem reconstruct_exact s modes nsamp :
   guard_reconstruct s modes nsamp = decide ((nsamp =? zlen modes) && forallb (wrap_range (ndim s)) modes).
@@ -150,6 +110,25 @@ Proof.
   - destruct (forallb (wrap_range (ndim s)) modes), (modes_ok (ndim s) modes); cbn [andb]; split; intros H;
       try (destruct H as [A B]); try discriminate; try (destruct B; discriminate); repeat split; auto.
   - rewrite andb_false_r. split; intros [A B]; [discriminate|contradiction].
+Qed.
+
+(* ---- ttensor.reconstruct with fixes/C19-N29.diff (9d2314a, pending): range + distinctness test in front of the assignments ---- *)
+Lemma existsb_negb {A} (f : A -> bool) l : existsb (fun x => negb (f x)) l = negb (forallb f l).
+Proof. induction l as [|x l IH]; [reflexivity|]. cbn. rewrite IH. destruct (f x); reflexivity. Qed.
+
+Lemma in_range_wrap N modes : forallb (in_range N) modes = true -> forallb (wrap_range N) modes = true.
+Proof.
+  intros H. rewrite forallb_forall in *. intros m Hm. specialize (H m Hm). unfold in_range, wrap_range in *.
+  apply andb_true_iff in H as [A B]. rewrite B, andb_true_r. apply Z.leb_le in A. apply Z.ltb_lt in B. apply Z.leb_le. lia.
+Qed.
+
+Theorem reconstruct_fixed_decides s modes nsamp :
+  guard_reconstruct_fixed s modes nsamp = decide (pre_reconstruct s modes nsamp).
+Proof.
+  unfold guard_reconstruct_fixed, pre_reconstruct, modes_ok. fold (wrap_range (ndim s)).
+  rewrite existsb_negb. destruct (nsamp =? zlen modes); cbn [chk andthen]; [|now rewrite andb_false_r].
+  rewrite andb_true_r. destruct (forallb (in_range (ndim s)) modes) eqn:F; cbn [negb orb andb]; [|reflexivity].
+  destruct (nodupb modes); cbn [negb andthen decide]; [|reflexivity]. now rewrite (in_range_wrap _ _ F).
 Qed.
 
 (* ---- ktensor.score, sptensor.subdims, ktensor.from_vector ---- *)
